@@ -39,6 +39,8 @@ def build():
     from taurex.optimizer.nestle import NestleOptimizer
     from .fixtures import GridOpacity
 
+    import logging
+    logging.disable(logging.CRITICAL)          # set_prior logs its rejection at ERROR level
     global _OffsetSpectrum
     if '_OffsetSpectrum' not in globals():
         class _OffsetSpectrum(ArraySpectrum):
